@@ -352,6 +352,8 @@ package bebop
 //@   modifies tr.errs, tr.keepNextToken, tr.loc.lineChar, tr.loc.line, tr.nextToken, tr.lastToken, ghost("canunread", tr.r), ghost("ateof", tr.r), ghost("ioerr", tr.r), ghost("left", tr.r), ghost("lastread", tr.r), fresh(), any(string), tr(), hw(), alloc()
 //@ func readEnum
 //@   requires okTR(tr)
+//@   assert after "en.Options = append(en.Options, EnumOption{": [ATTACH] en.Options[len(en.Options)-1].Deprecated == nextIsDeprecated && en.Options[len(en.Options)-1].DeprecatedMessage == nextDeprecatedMessage
+//@   assert after "nextIsDeprecated = false": [PENDING] !nextIsDeprecated && nextDeprecatedMessage == ""
 //@   ensures [PROG] result1 == nil ==> prog(tr) <= old(prog(tr))
 //@   invariant loop 1: prog(tr) <= old(prog(tr))
 //@   decreases loop 1: prog(tr)
@@ -388,6 +390,10 @@ package bebop
 //@   modifies tr.errs, tr.keepNextToken, tr.loc.lineChar, tr.loc.line, tr.nextToken, tr.lastToken, ghost("canunread", tr.r), ghost("ateof", tr.r), ghost("ioerr", tr.r), ghost("left", tr.r), ghost("lastread", tr.r), fresh(), any(string), tr(), hw(), alloc()
 //@ func readStruct
 //@   requires okTR(tr)
+// C11, field level: a field takes exactly the pending deprecation when it is appended [ATTACH]; afterwards every pending
+// per-field attribute (deprecation, its message, comment lines, comment tags) is cleared [PENDING]
+//@   assert after "st.Fields = append(st.Fields, Field{": [ATTACH] st.Fields[len(st.Fields)-1].Deprecated == nextIsDeprecated && st.Fields[len(st.Fields)-1].DeprecatedMessage == nextDeprecatedMessage
+//@   assert after "nextCommentTags = []Tag{}": [PENDING] !nextIsDeprecated && nextDeprecatedMessage == "" && len(nextCommentLines) == 0 && len(nextCommentTags) == 0
 //@   ensures [PROG] result1 == nil ==> prog(tr) <= old(prog(tr))
 //@   invariant loop 1: prog(tr) <= old(prog(tr))
 //@   decreases loop 1: prog(tr)
@@ -420,6 +426,8 @@ package bebop
 //@   modifies tr.errs, tr.keepNextToken, tr.loc.lineChar, tr.loc.line, tr.nextToken, tr.lastToken, ghost("canunread", tr.r), ghost("ateof", tr.r), ghost("ioerr", tr.r), ghost("left", tr.r), ghost("lastread", tr.r), fresh(), any(string), tr(), hw(), alloc()
 //@ func readMessage
 //@   requires okTR(tr)
+//@   assert after "msg.Fields[uint8(fdInteger)] = Field{": [ATTACH] msg.Fields[uint8(fdInteger)].Deprecated == nextIsDeprecated && msg.Fields[uint8(fdInteger)].DeprecatedMessage == nextDeprecatedMessage
+//@   assert after "nextCommentTags = []Tag{}": [PENDING] !nextIsDeprecated && nextDeprecatedMessage == "" && len(nextCommentLines) == 0 && len(nextCommentTags) == 0
 //@   ensures [PROG] result1 == nil ==> prog(tr) <= old(prog(tr))
 //@   invariant loop 1: prog(tr) <= old(prog(tr))
 //@   decreases loop 1: prog(tr)
@@ -434,6 +442,8 @@ package bebop
 //@   modifies tr.errs, tr.keepNextToken, tr.loc.lineChar, tr.loc.line, tr.nextToken, tr.lastToken, ghost("canunread", tr.r), ghost("ateof", tr.r), ghost("ioerr", tr.r), ghost("left", tr.r), ghost("lastread", tr.r), fresh(), any(string), tr(), hw(), alloc()
 //@ func readUnion
 //@   requires okTR(tr)
+//@   assert after "union.Fields[uint8(fdInteger)] = unionFd": [ATTACH] union.Fields[uint8(fdInteger)].Deprecated == nextIsDeprecated && union.Fields[uint8(fdInteger)].DeprecatedMessage == nextDeprecatedMessage
+//@   assert after "nextCommentTags = []Tag{}": [PENDING] !nextIsDeprecated && nextDeprecatedMessage == "" && len(nextCommentLines) == 0 && len(nextCommentTags) == 0
 //@   ensures [PROG] result1 == nil ==> prog(tr) <= old(prog(tr))
 //@   invariant loop 1: prog(tr) <= old(prog(tr))
 //@   decreases loop 1: prog(tr)
